@@ -101,6 +101,13 @@ def plan(args):
                     pick.append(bycls[c].pop())
         chosen.extend(pick)
     os.makedirs(OUT, exist_ok=True)
+    if args.extend and os.path.exists(OUT + '/plan.json'):
+        # a further sample with another seed: keep what was chosen before, add new picks only
+        old = json.load(open(OUT + '/plan.json'))
+        have = {m['id'] for m in old['mutants']}
+        chosen = old['mutants'] + [m for m in chosen if m['id'] not in have]
+        args.seed = '%s+%s' % (old['seed'], args.seed)
+        args.per_file = '%s+%s' % (old['per_file'], args.per_file)
     head = subprocess.check_output(['git', '-C', REPO, 'rev-parse', 'HEAD'], text=True).strip()
     json.dump({'repo_head': head, 'total_generated': len(allm), 'per_file': args.per_file, 'seed': args.seed, 'mutants': chosen}, open(OUT + '/plan.json', 'w'), indent=1)
     print('generated', len(allm), 'chosen', len(chosen), 'files', len(byfile))
@@ -202,7 +209,7 @@ def table(args):
     if os.path.exists(OUT + '/survivor_notes.json'):
         notes = json.load(open(OUT + '/survivor_notes.json'))
     out = ['# Mechanical mutation sweep', '',
-           'Generated %d single-token mutants of src/ (outside test modules, assertions excluded), %d chosen (at most %d per file, stratified by operator class, seed %d), %d judged so far.' % (pl['total_generated'], len(pl['mutants']), pl['per_file'], pl['seed'], len(rows)),
+           'Generated %d single-token mutants of src/ (outside test modules, assertions excluded), %d chosen (at most %s per file, stratified by operator class, seed %s), %d judged so far.' % (pl['total_generated'], len(pl['mutants']), pl['per_file'], pl['seed'], len(rows)),
            '', 'Verdicts: ' + ', '.join('%s %d' % kv for kv in sorted(cnt.items())), '',
            '| id | file:line | operator | verdict | first killing quick check(s) | note |', '|---|---|---|---|---|---|']
     for r in rows:
@@ -214,7 +221,7 @@ def table(args):
 if __name__ == '__main__':
     ap = argparse.ArgumentParser()
     sub = ap.add_subparsers(dest='cmd')
-    p = sub.add_parser('plan'); p.add_argument('--per-file', type=int, default=8); p.add_argument('--seed', type=int, default=1)
+    p = sub.add_parser('plan'); p.add_argument('--per-file', type=int, default=8); p.add_argument('--seed', type=int, default=1); p.add_argument('--extend', action='store_true')
     p = sub.add_parser('run'); p.add_argument('--worker', type=int, default=0); p.add_argument('--of', type=int, default=1); p.add_argument('--work', default='/tmp/mut'); p.add_argument('--all', action='store_true')
     p = sub.add_parser('table')
     a = ap.parse_args()
